@@ -470,6 +470,9 @@ def run_shard(spec):
                             if fam == "ET":
                                 entry_case({"kind": "connected_then_silent", "family": fam, "port": port, "via": via,
                                             "timeout": t, "retries": r, "refuse_probes": True}, part)
+        for r in sorted({v for v in env.harvest_ints() if 4 <= v <= 64} - {11, 30}):
+            # (a cap or special case on the budget sits at some constant of the source: every small one is tried as a budget)
+            entry_case({"kind": "connect_silent", "family": "ET", "port": 8899 if r % 2 else 502, "timeout": 1, "retries": r}, part)
         for r in (11, 30):           # large retry budgets are honoured in full as well
             for fam in ("ET", "DT", "ES"):
                 for port in ((8899, 502) if fam != "ES" else (8899,)):
